@@ -7,6 +7,7 @@ from __future__ import annotations
 
 import json
 import random
+import sys
 from pathlib import Path
 from typing import Any, Dict, List, Tuple
 
@@ -355,6 +356,140 @@ def flicker_acts(seed: int, n: int, high: bool) -> List[List[Dict[str, Any]]]:
     return out
 
 
+# ------------------------------------------------------------------ the matrix inside the machine: MachineKbd.tla
+
+MK_CLAUSES = {"FifoBounded", "DropsOldestOnly", "KeyiGated", "EventOrder"}      # sentences of C14; PressHasCause is a composition clause
+
+
+def _script_from_mk_acts(acts, code: int) -> List[Dict[str, Any]]:
+    """a behaviour of MachineKbd.tla as a script for the real machines (machine_harness.run_script); the model's one key is `code`"""
+    col = code >> 3
+    out: List[Dict[str, Any]] = []
+    for a in acts:
+        a = dict(a)
+        if a["ev"] == "TimerCfg":
+            out.append({"ev": "TimerCfg", "pm": int(a["pm"]), "ps": int(a.get("ps", 0))})
+        elif a["ev"] == "Key":
+            out.append({"ev": "Key", "code": code, "press": bool(int(a["press"]))})
+        elif a["ev"] == "Step":
+            ins = dict(a["ins"])
+            k = ins["k"]
+            if k == "STROBE":
+                out.append({"ev": "Step", "ins": {"k": "STROBE", "v": (1 << col) if int(ins["v"]) else 0}})
+            elif k == "CLRISR":
+                out.append({"ev": "Step", "ins": {"k": "CLRISR", "m": sorted(ins["m"])}})
+            elif k == "SETIMR":
+                out.append({"ev": "Step", "ins": {"k": "SETIMR", "v": int(ins["v"])}})
+            elif k == "IDLE":
+                out.append({"ev": "Step", "ins": {"k": "NOP"}})
+            else:
+                out.append({"ev": "Step", "ins": {"k": k}})
+    return out
+
+
+def random_mk_script(rnd: random.Random, length: int) -> List[Dict[str, Any]]:
+    """keys of the first column pair going down and up under programs that strobe, mask, acknowledge, halt and return, with a fast main
+    timer - long enough for debounce, repeats (24 + 6 scans), releases and a queue that fills up"""
+    pm = rnd.choice([1, 1, 2, 3, 5])
+    keys = rnd.choice([[0], [8], [0, 1], [0, 8, 9], [0, 1, 8, 9, 16]])
+    out: List[Dict[str, Any]] = [{"ev": "TimerCfg", "pm": pm, "ps": rnd.choice([0, 0, 7])}]
+    style = rnd.choice(["masked", "handlers", "fill", "sleepy"])
+    out.append({"ev": "Step", "ins": {"k": "STROBE", "v": rnd.choice([0xFF, 0x01, 0x03])}})
+    if style in ("handlers", "sleepy"):
+        out.append({"ev": "Step", "ins": {"k": "SETIMR", "v": rnd.choice([0x84, 0x85, 0x8D])}})
+    heldk: set = set()
+    for _ in range(length):
+        r = rnd.random()
+        if r < 0.10:
+            c = rnd.choice(keys)
+            press = c not in heldk if rnd.random() < 0.9 else c in heldk       # mostly real changes, sometimes a redundant report
+            (heldk.add if press else heldk.discard)(c)
+            out.append({"ev": "Key", "code": c, "press": press})
+            out.append({"ev": "Step", "ins": {"k": "NOP"}})
+        elif r < 0.16:
+            out.append({"ev": "Step", "ins": {"k": "STROBE", "v": rnd.choice([0x00, 0xFF, 0x01, 0x02, 0x03])}})
+        elif r < 0.24 and style != "fill":
+            out.append({"ev": "Step", "ins": {"k": "CLRISR", "m": [rnd.choice([2, 2, 0])]}})
+        elif r < 0.30 and style in ("handlers", "sleepy"):
+            out.append({"ev": "Step", "ins": {"k": "RETI"}})
+        elif r < 0.34 and style in ("handlers", "sleepy", "masked"):
+            out.append({"ev": "Step", "ins": {"k": "SETIMR", "v": rnd.choice([0x84, 0x85, 0x04, 0x00, 0x81, 0x8D])}})
+        elif r < 0.38 and style == "sleepy":
+            out.append({"ev": "Step", "ins": {"k": "HALT"}})
+        else:
+            out += [{"ev": "Step", "ins": {"k": "NOP"}}] * rnd.choice([1, 1, 2, 4, 9])
+    return out
+
+
+def _mk_drive(shard_id, items, extra):
+    sys.path.insert(0, str(vlib.VERIF / "harness" / "py"))
+    vlib.setup_repo_imports()
+    import machine_harness as mh
+    vh = Vh()
+    events, meta = [], {}
+    tid = shard_id * 10_000_000
+    try:
+        for k, script in enumerate(items):
+            irq = (k % 4 != 3)            # every fourth script with keyboard interrupts switched off
+            for impl in ("rs", "py"):
+                tid += 1
+                m = mh.RustMachine(vh, kb_irq=irq, press_th=2) if impl == "rs" else mh.PyMachine(kb_irq=irq, press_th=2)
+                meta[tid] = {"impl": impl, "script": script, "kb_irq": irq}
+                events.extend(mh.run_script(m, script, tid))
+    finally:
+        vh.close()
+    return events, meta
+
+
+def _mk_shape(b, meta) -> str:
+    d = b["detail"]
+    return f"Machine{b['clause']}:{meta['impl']}:{str(d[1]).lower()}"
+
+
+def machine_keyboard(cr: CheckRun) -> None:
+    """MachineKbd.tla: the matrix scanned by the machine itself (Python: after every instruction; Rust: on main-timer firings), the
+    queue and the key-interrupt latch.  TLC checks the machine-level sentences of C14 under both disciplines; the model's behaviours
+    and seeded scripts run on both whole machines and the recorded steps are judged by the same clauses (TraceMachineKbd.tla)."""
+    quick = cr.tier == "quick"
+    for name in ("instr", "mti", "instr_noirq", "mti_noirq") if quick else ("instr_t", "mti_t", "instr_noirq", "mti_noirq"):
+        cfg = f"MCMachineKbd_{name}.cfg"
+        res = run_tlc(SD, "MCMachineKbd", cfg, workers=vlib.NCPU, extra=["-coverage", "1"], tag="C14-" + cfg, timeout=3000, heap="8g")
+        if res.invariant_violated:
+            raise MachineryError(f"MachineKbd model ({name}) violates {res.invariant_violated}")
+        tlc_expect_ok(res, cfg)
+        cov = res.coverage_actions()
+        for act in ("StepRun", "StepHalt", "Press", "Release"):
+            if act in cov and cov[act][1] == 0:
+                raise MachineryError(f"vacuity: {act} never taken (MachineKbd, {name})")
+        cr.add_tlc(cfg, res)
+    # (no exhaustive dump: with the recorded history every path is a state of its own - 12 GB at depth 7; behaviours come from -simulate)
+    items: List[List[Dict[str, Any]]] = []
+    sims, res = vlib.sim_behaviours(SD, "MCMachineKbd", "MCMachineKbd_sim.cfg", 300 if quick else 5000, 60, cr.seed, "C14mk", var="acts")
+    if res.invariant_violated:
+        raise MachineryError(f"MachineKbd model violates {res.invariant_violated} (simulate)")
+    items += [_script_from_mk_acts(v, 8 if k % 2 else 0) for k, v in enumerate(sims) if len(v) >= 4]
+    rnd = random.Random(cr.seed + 1414)
+    items += [random_mk_script(rnd, 70) for _ in range(200 if quick else 4000)]
+    ntr, nev, bad = vlib.trace_campaign("C14", SD, "TraceMachineKbd", "TraceMachineKbd.cfg", items, _mk_drive, "machine-keyboard")
+    drift = 0
+    for b, meta in bad:
+        d = b["detail"]
+        text = f"{meta['impl']} machine (kb_irq={meta['kb_irq']}): {b['clause']} fails at step {b['line']}: instr={d[1]} queue {list(d[0][0])} -> {list(d[0][1])} pre={dict(d[2])} post={dict(d[3])}"
+        if b["clause"] in MK_CLAUSES:
+            cr.violation(_mk_shape(b, meta), text, {"kind": "machine-keyboard", "impl": meta["impl"], "script": meta["script"], "kb_irq": meta["kb_irq"],
+                                                   "clause": b["clause"], "line": b["line"]})
+        else:
+            drift += 1
+            if drift <= 3:
+                print(f"DRIFT property=C14 action=machine-keyboard {text[:300]}")
+    cr.cov["model_drift"] = cr.cov.get("model_drift", 0) + drift
+    cr.cov["traces_validated_against_impl"] += ntr
+    cr.cov["evaluations"] += nev
+    cr.cov.setdefault("campaigns", []).append({"name": "machine-keyboard", "traces": ntr, "events": nev, "rejected_steps": len(bad), "drift": drift})
+    cr.add_sample({"campaign": "machine-keyboard", "script": items[len(items) // 2][:14]})
+    cr.mark("machine-keyboard")
+
+
 def run(cr: CheckRun) -> None:
     vlib.setup_repo_imports()
     vlib.build_vh()
@@ -402,6 +537,7 @@ def run(cr: CheckRun) -> None:
     for cfgname in ("rs-norepeat-high", "rs-press2-high", "py-small-high", "py-norepeat-high", "py-norepeat-low"):
         campaign(cr, cfgname, flicker_acts(cr.seed + 77, 60 if quick else 800, CONFIGS[cfgname][6]), "flicker")
     cr.mark("random")
+    machine_keyboard(cr)
     cr.cov["distinct_nontrivial"] = len({json.dumps(b, sort_keys=True) for b in items + sitems + ritems}) + n * len(CONFIGS)
     cr.cov["rule"] = "distinct input histories (press/release/strobe/tick/read/inject/consume) executed on the real keyboard objects"
     cr.cov["trusted_base"] = ["vh harness (kbd.rs)", "Python driver wraps KeyboardMatrix.scan_tick to observe its returned events", "TLC"]
